@@ -203,12 +203,84 @@ def _work(job):
     return part
 
 
+def _work_special(job):
+    """Queries in unusual representations: (a) latitude / longitude given as integers (Python int, numpy integer),
+    a 32-bit float, a 0-d array - the answer must be that of the same number as a Python float; (b) queries that
+    are bit for bit the centre of a pixel of the tile they fall in (taken from toasty's own pixel-centre grid)."""
+    from toasty import toast
+    from toasty.pyramid import Pos
+
+    tier, planetary = job
+    part = Part()
+    cs = toast.ToastCoordinateSystem.PLANETARY if planetary else toast.ToastCoordinateSystem.ASTRONOMICAL
+    csn = "planetary" if planetary else "astronomical"
+    forms = [("int", int), ("int64", np.int64), ("int32", np.int32), ("array0d", lambda v: np.array(float(v))), ("float32", np.float32)]
+    for lat_i in (-1, 0, 1):
+        for lon_i in (0, 1, 2, 3, 4, 5, 6):
+            for fname_, conv in forms:
+                for d in (1, 3, 6):
+                    cfg = {"lon": lon_i, "lat": lat_i, "coordsys": csn, "kind": "typed:" + fname_, "depth": d}
+                    part.case(nontrivial=True)
+                    part.count("typed_lookups")
+                    try:
+                        want = tuple(toast.toast_tile_for_point(d, float(conv(lat_i)), float(conv(lon_i)), coordsys=cs).pos)
+                        got = tuple(toast.toast_tile_for_point(d, conv(lat_i), conv(lon_i), coordsys=cs).pos)
+                    except Exception as e:
+                        part.violation("tile/raises:%s/coordsys=%s" % (type(e).__name__, csn), "%r: %r" % (cfg, e), cfg)
+                        continue
+                    pq = tg.vec(float(lon_i), float(lat_i))
+                    if got != want and not tg.contains(tg.single(got[0], got[1], got[2], planetary)[0], pq, tol=1e-9):
+                        part.violation("tile/containment/number-type", "%r: latitude/longitude given as %s: tile %r, which does not contain the point (given as float: %r)" % (cfg, fname_, got, want), cfg)
+                if fname_ in ("int", "int64") and abs(lat_i) < 1.5:
+                    cfg = {"lon": lon_i, "lat": lat_i, "coordsys": csn, "kind": "typed:" + fname_, "depth": 3, "pixel": True}
+                    part.case(nontrivial=True)
+                    try:
+                        t, x, y = toast.toast_pixel_for_point(3, conv(lat_i), conv(lon_i), coordsys=cs)
+                    except Exception as e:
+                        part.violation("pixel/raises:%s/coordsys=%s" % (type(e).__name__, csn), "%r: %r" % (cfg, e), cfg)
+                        continue
+                    pos = tuple(t.pos)
+                    pq = tg.vec(float(lon_i), float(lat_i))
+                    g = tg.pixel_grid(3, pos[1], pos[2], planetary)
+                    dist = np.linalg.norm(g - pq, axis=-1)
+                    i, j = np.unravel_index(np.argmin(dist), dist.shape)
+                    if not tg.contains(tg.single(3, pos[1], pos[2], planetary)[0], pq, tol=1e-9) or not (abs(x - j) <= 2 and abs(y - i) <= 2):
+                        part.violation("pixel/number-type", "%r: given as %s: tile %r pixel (%.2f, %.2f); nearest centre (%d, %d)" % (cfg, fname_, pos, x, y, j, i), cfg)
+    # (b) exact pixel centres
+    tiles = [(1, 0, 0), (1, 1, 0), (1, 0, 1), (1, 1, 1), (3, 2, 5), (3, 7, 0), (3, 4, 4), (6, 13, 50), (6, 33, 31)] + ([(2, 1, 2), (4, 9, 3), (5, 30, 2), (7, 100, 17)] if tier == "thorough" else [])
+    pix = [(10, 200), (128, 3), (250, 77), (0, 255), (31, 32)] + ([(255, 0), (100, 101), (5, 5)] if tier == "thorough" else [])
+    for (n_, x_, y_) in tiles:
+        tile = toast.create_single_tile(Pos(n_, x_, y_), coordsys=cs)
+        lons, lats = toast.toast_tile_get_coords(tile)
+        g = tg.pixel_grid(n_, x_, y_, planetary)
+        for (i, j) in pix:
+            lon, lat = float(lons[i, j]), float(lats[i, j])
+            if abs(lat) > np.pi / 2 - np.radians(1.0):
+                continue
+            for lonq in (lon, lon % (2 * np.pi)):
+                cfg = {"lon": lonq, "lat": lat, "coordsys": csn, "kind": "pixel-centre", "depth": n_, "pixel": True}
+                part.case(nontrivial=True)
+                part.count("exact_pixel_centre_lookups")
+                try:
+                    t, x, y = toast.toast_pixel_for_point(n_, lat, lonq, coordsys=cs)
+                except Exception as e:
+                    part.violation("pixel/raises:%s/coordsys=%s" % (type(e).__name__, csn), "%r: %r" % (cfg, e), cfg)
+                    continue
+                pq = tg.vec(lonq, lat)
+                if np.linalg.norm(g[i, j] - pq) > 1e-9:
+                    part.violation("pixel/grid-differs-from-reference", "%r: toasty's pixel centre (%d, %d) of tile %r is %.3g rad from the reference centre" % (cfg, j, i, (n_, x_, y_), np.linalg.norm(g[i, j] - pq)), cfg)
+                    continue
+                if tuple(t.pos) != (n_, x_, y_) or not (abs(x - j) <= 0.5 and abs(y - i) <= 0.5):
+                    part.violation("pixel/exact-centre", "%r: the query is the centre of pixel (x=%d, y=%d) of tile %r; returned tile %r, (x, y) = (%.3f, %.3f)" % (cfg, j, i, (n_, x_, y_), tuple(t.pos), x, y), cfg)
+    return part
+
+
 def run(tier, seed):
     rep = Report(PROP, tier, seed, "exploration")
     rep.rule = (
         "every vertex of the level-%d TOAST lattice (corners, edge midpoints, centres of coarser tiles: edges, diamond, seam, poles) + a 24x13 "
         "grid + near-pole/seam points + 160 (384) points 1-3 degrees from the poles near the quadrant meridians (pixel clause at depths 2-4), each at 4 longitude shifts, depths 0..%d, both coordinate systems; pixel clause at depths 1,3,6 for "
-        "points >= 1 degree from the poles; deep descents to depth 14/23 or 20/24 for half of the points (containment to 1e-3 tile widths plus the double-precision resolution 8 ulp / width of a tile side); non-trivial = lattice/edge point or shifted longitude"
+        "points >= 1 degree from the poles; deep descents to depth 14/23 or 20/24 for half of the points (containment to 1e-3 tile widths plus the double-precision resolution 8 ulp / width of a tile side); non-trivial = lattice/edge point or shifted longitude; plus integer / 32-bit / 0-d-array typed coordinates (3 latitudes x 7 longitudes x 5 types, answer compared with the float query) and queries that are bit for bit the centre of a pixel (9-13 tiles x 5-8 pixels, as given and reduced mod 2 pi)"
         % (4 if tier == "quick" else 6, 6 if tier == "quick" else 8)
     )
     rep.assumptions = ["points within 1e-9 of a shared edge may resolve to either adjacent tile", "continuum between lattice points is not covered", "'up to rounding on shared edges' is read, for deep tiles, as the double-precision resolution of a side of length w: 8 ulp / w radians (0.005 tile widths at depth 20, 0.2 at depth 24)"]
@@ -219,11 +291,18 @@ def run(tier, seed):
     for i in range(n):
         jobs.append((tier, bool(i % 2), pts[i::n]))
     par.pmap(_work, jobs, rep)
+    par.pmap(_work_special, [(tier, False), (tier, True)], rep)
     return rep.finish()
 
 
 def replay(payload):
     r = payload["replay"]
+    if str(r.get("kind", "")).startswith("typed:") or r.get("kind") == "pixel-centre":
+        # the representation families are small: re-run the family for that coordinate system
+        part = _work_special(("thorough", r["coordsys"] == "planetary"))
+        for sig, (detail, _) in part.violations.items():
+            print("REPLAY-FAIL", sig, detail[:300])
+        return 1 if part.violations else 0
     part = Part()
     deep = (r["depth"],) if (not r.get("pixel") and r["depth"] > 9) else ()
     check_point(r.get("kind", "replay"), r["lon"], r["lat"], [r["depth"]] if not (r.get("pixel") or deep) else [], [r["depth"]] if r.get("pixel") else [], r["coordsys"] == "planetary", part, deep)
